@@ -37,7 +37,7 @@ case "${1:-}" in
     tier="${2:-quick}"
     build_harness
     case "$id" in
-      C10|C16|C17|C18|C19) build_cli ;;
+      C10|C12|C16|C17|C18|C19) build_cli ;;
     esac
     if [ "$id" = "C16" ] && [ "$tier" = "thorough" ]; then
       # the shipped profile (panic = "abort", LTO, opt-level z) is spot-checked by the thorough tier
